@@ -18,9 +18,9 @@ const fixtureDir = "/verif/fixtures/ximage"
 // refPlanes is libwebp's own decode of a lossy fixture (dwebp -pgm, stored as a gray PNG in
 // golang.org/x/image/testdata): Y plane on top, below it U and V side by side, then alpha.
 type refPlanes struct {
-	w, h       int
-	y, cb, cr  []byte // strides w, (w+1)/2
-	a          []byte // nil without alpha
+	w, h      int
+	y, cb, cr []byte // strides w, (w+1)/2
+	a         []byte // nil without alpha
 }
 
 func loadRefPlanes(pngPath string, w, h int, withAlpha bool) (*refPlanes, error) {
